@@ -382,6 +382,28 @@ def x_classfail(ctx, case):
     return True
 
 
+def x_strict_text(ctx, case):
+    """A TextTestResult subclass with a stricter wasSuccessful() (skips count against the run; so does a run with
+    no test at all): the OK / FAILED line it writes, and testtools.run's exit status, follow ITS verdict."""
+    import testtools
+
+    class Strict(testtools.TextTestResult):
+        def wasSuccessful(self):
+            return super().wasSuccessful() and not self.skip_reasons and self.testsRun > 0
+    stream = io.StringIO()
+    leaf = Strict(stream)
+    leaf.startTestRun()
+    for i, o in enumerate(case["tests"]):
+        make_test(i, o, "testcase").run(leaf)
+    leaf.stopTestRun()
+    text = stream.getvalue()
+    last = text.rstrip().splitlines()[-1] if text.strip() else ""
+    verdict = leaf.wasSuccessful()
+    ctx.check((last == "OK") == verdict and (last.startswith("FAILED") == (not verdict)), "text.summary-agrees",
+              lambda: {"tests": case["tests"], "the subclass's wasSuccessful()": verdict, "last line": last})
+    return True
+
+
 def x_concurrent_abort(ctx, case):
     """stop() must reach the workers' results when a concurrent suite's run() is aborted by an interrupt in the
     calling thread (the machinery - controlled scheduler, interrupt injection - is C13's)."""
@@ -440,7 +462,13 @@ def x_run(ctx, case):
             def __init__(self, verbosity=None, failfast=None, buffer=None):
                 super().__init__(verbosity=verbosity, failfast=failfast, buffer=buffer, stdout=out)
         runner = {"no_tb_locals": NoTbLocals, "prior": Prior}.get(case.get("runner_class"))
-        if case.get("runner_class") == "via_main":
+        if case.get("runner_class") == "stdout_default":
+            # no stdout given: whatever sys.stdout is WHEN THE PROGRAM RUNS gets the report (here a redirection made
+            # long after testtools.run was imported)
+            import contextlib
+            with contextlib.redirect_stdout(out):
+                prog = TestProgram(module=mod, argv=argv)
+        elif case.get("runner_class") == "via_main":
             # the way `python -m testtools.run` comes in: run.main(argv, stdout), tests named by dotted path
             from testtools import run as run_module
             run_module.main(argv[:-1] + [modname + ".test_suite"], out)
@@ -538,7 +566,7 @@ def x_subprocess(ctx, case):
 
 
 SUBCHECKS = {"hist": x_hist, "run": x_run, "subprocess": x_subprocess, "stream_replay": x_stream_replay,
-             "classfail": x_classfail,
+             "classfail": x_classfail, "strict_text": x_strict_text,
              "concurrent_abort": x_concurrent_abort}
 
 
@@ -598,7 +626,7 @@ def run(ctx):
     for i in range(ctx.scale(120, 6000)):
         tests = [rng.choice(OUTCOMES) for _ in range(rng.randint(0, 5))]
         ctx.execute("run", {"tests": tests, "failfast": rng.random() < 0.3,
-                            "runner_class": rng.choice([None, None, "no_tb_locals", "prior", "via_main"])})
+                            "runner_class": rng.choice([None, None, "no_tb_locals", "prior", "via_main", "stdout_default"])})
     for kind in ("cts", "stream"):
         for at in (3, 5, 8, 11):
             for rep in range(2):
@@ -628,7 +656,9 @@ def run(ctx):
                     for ff in (False, True):
                         ctx.execute("classfail", {"stack": stack, "others": others, "broken_tests": broken_tests,
                                                   "broken_first": broken_first, "failfast": ff})
-    for rc in (None, "no_tb_locals", "prior", "via_main"):
+    for tests in ([], ["success"], ["skip"], ["success", "skip"], ["failure"], ["success", "uxsuccess"], ["xfail", "success"]):
+        ctx.execute("strict_text", {"tests": tests})
+    for rc in (None, "no_tb_locals", "prior", "via_main", "stdout_default"):
         for ff in (True, False):
             for tests in (["failure", "success", "error"], ["success", "error", "failure"], ["uxsuccess", "success"]):
                 ctx.execute("run", {"tests": tests, "failfast": ff, "runner_class": rc})
